@@ -9,7 +9,7 @@ def reg(cid, **kw):
     CHECKS[cid] = kw
 
 
-HOOK_COMMITS = ["ca09cd0"]
+HOOK_COMMITS = ["ca09cd0", "d5138f1"]
 NOT_APPLICABLE = {}
 
 reg("C02", level="exploration", overlay="plain",
@@ -113,3 +113,10 @@ reg("C05", level="model_checking", overlay="world",
     level_text="Every ordered pair of datagrams from the mutation catalogue is injected for the outstanding basic and interleaved request of the real client; a reported measurement is accepted by the oracle only if the datagram it was computed from satisfies the predicate written from the statement (fault enumeration flavour of model checking: states = distinct (accepted?, consumed) classes).",
     budget={"quick": 150, "thorough": 1200}, workers={"quick": 16, "thorough": 16},
     assumptions=["mutations are single-field; arbitrary byte strings are covered by C08's grammars", "NTS and SCION variants are separate scenarios of this check"])
+
+reg("C20", level="model_checking", overlay="world",
+    technique="exhaustive enumeration of scripted-peer behaviours and call histories around the real Fetcher with real TLS 1.3 handshakes over in-memory streams",
+    level_text="The real Fetcher/dialTLS/ReadData/ExportKeys code performs a complete TLS 1.3 handshake with a scripted peer inside a bubble for every script of the grammar and every history of scripts inside the bound; success/failure is compared with the statement's predicate evaluated on the script, keys with the peer's own exporter values, the pool with the cookies sent, and the state after a failure with 'nothing left'.",
+    budget={"quick": 150, "thorough": 1200}, workers={"quick": 16, "thorough": 16},
+    assumptions=["TLS certificate verification and the TLS 1.3 minimum are outside the property", "QUIC/SCION transport of the same exchange is not executed (it shares ReadData/ExportKeys)",
+                 "scripts deviate from the valid exchange in one place"])
